@@ -1145,7 +1145,8 @@ class PDFCIDFont(PDFFont):
             if ttf:
                 try:
                     self.unicode_map = ttf.create_unicode_map()
-                except TrueTypeFont.CMapNotFound:
+                except (TrueTypeFont.CMapNotFound, struct.error):
+                    # no cmap table, or one that ends before its declared size
                     pass
         else:
             try:
